@@ -69,7 +69,8 @@ U_bzread = Unit(BZ, 'read', cls='Bzip2Decompressor', ret='size_t', stub_siblings
                      (r'return buffer;', 'return buffer_size;'), (r'osmium::io::Decompressor::input_buffer_size', 'input_buffer_size'), (r'm_file\.file\(\)', 'm_file'),
                      (r'std::string unused_data\{static_cast<const char\*>\(unused\), static_cast<size_t>\(num_unused\)\};', 'size_t unused_data_size = (size_t)num_unused;'),
                      (r'unused_data\.size\(\)', 'unused_data_size'), (r'unused_data\.empty\(\) \? nullptr : &\*unused_data\.begin\(\)', '(unused_data_size == 0 ? 0 : unused)'),
-                     (r'detail::throw_bzip2_error', 'throw_bzip2_error'), (r'detail::at_end_of_file', 'at_end_of_file')])
+                     (r'detail::throw_bzip2_error', 'throw_bzip2_error'),
+                     (lambda body, R: body.replace('detail::at_end_of_file', 'at_end_of_file'))])   # optional: a body that no longer asks for the end of the file must be decided, not reported as a break
 U_ateof = Unit(BZ, 'at_end_of_file', params=['VFILE file'])
 BZ_CONTRACT = [
     ('pre:an open decompressor', 'requires', 'verif_exc == 0 && __CPROVER_is_fresh(self, sizeof(*self)) && self->m_bzfile == &ghost_handle_a && ghost_unused == 0 && ghost_pending >= 0 && ghost_pending <= 5000 && ghost_file_left <= (1ULL << 40) && '
